@@ -6,9 +6,11 @@ import (
 	"net"
 	"os"
 	"os/exec"
+	"runtime"
 	"sort"
 	"strings"
 	"sync"
+	"sync/atomic"
 	"time"
 
 	"github.com/IBM/fluent-forward-go/fluent/client/ws"
@@ -26,6 +28,11 @@ import (
 //   observation: res=<sorted results of the Close calls> frames=<close frames written> closes=<underlying closes>
 //                closed=<Closed() at the end> reverted=<Closed() ever went back to false> listen=<result of Listen|-> maxms=<slowest Close>
 //   run in a child process: a panic in the library's reader goroutine cannot be recovered.
+
+type yieldLogger struct{}
+
+func (yieldLogger) Println(...interface{})          { time.Sleep(200 * time.Microsecond) }
+func (yieldLogger) Printf(string, ...interface{}) { time.Sleep(200 * time.Microsecond) }
 
 func classifyErr(err error) string {
 	switch {
@@ -59,7 +66,24 @@ func wcChild(a []string) string {
 	if peer == "writefail" {
 		f.writeErr = true
 	}
-	conn, err := ws.NewConnection(f, ws.ConnectionOptions{CloseDeadline: 150 * time.Millisecond})
+	// the caller's logger is a scheduling point inside the library: every log call yields, which widens
+	// whatever window the library leaves open around it
+	copts := ws.ConnectionOptions{CloseDeadline: 150 * time.Millisecond, Logger: yieldLogger{}}
+	var handled int32
+	if scen == "handler" {
+		// a ReadHandler of the caller's: fails on the first data message, accepts the others, closes on a read error
+		copts.ReadHandler = func(c ws.Connection, _ int, _ []byte, err error) error {
+			if err != nil {
+				_ = c.Close()
+				return err
+			}
+			if atomic.AddInt32(&handled, 1) == 1 {
+				return errors.New("handler failed")
+			}
+			return nil
+		}
+	}
+	conn, err := ws.NewConnection(f, copts)
 	if err != nil {
 		return "setup-failed"
 	}
@@ -145,6 +169,46 @@ func wcChild(a []string) string {
 			}(i)
 		}
 		wg.Wait()
+	case "listeners":
+		// n goroutines call Listen at the same moment on a fresh connection: one is admitted
+		start := make(chan struct{})
+		lres := make(chan string, n)
+		for i := 0; i < n; i++ {
+			go func() { <-start; lres <- classifyErr(conn.Listen()) }()
+		}
+		time.Sleep(2 * time.Millisecond)
+		close(start)
+		time.Sleep(15 * time.Millisecond)
+		t0 := time.Now()
+		results = append(results, classifyErr(conn.Close()))
+		maxms = time.Since(t0).Milliseconds()
+		var ls []string
+		for i := 0; i < n; i++ {
+			select {
+			case r := <-lres:
+				ls = append(ls, r)
+			case <-time.After(2 * time.Second):
+				ls = append(ls, "hang")
+			}
+		}
+		sort.Strings(ls)
+		extraListen = strings.Join(ls, "+")
+	case "handler":
+		// the peer sends n data messages, the caller's handler fails on the first; then one Close
+		if !listen {
+			startListen()
+			time.Sleep(5 * time.Millisecond)
+			listen = true
+		}
+		for i := 0; i < n; i++ {
+			f.reads <- readRes{mt: websocket.BinaryMessage, p: []byte{byte(i)}}
+			time.Sleep(time.Millisecond)
+		}
+		time.Sleep(5 * time.Millisecond)
+		t0 := time.Now()
+		results = append(results, classifyErr(conn.Close()))
+		maxms = time.Since(t0).Milliseconds()
+		extraListen = fmt.Sprintf("handled%d", atomic.LoadInt32(&handled))
 	case "relisten":
 		// n = 0: second Listen while the first is running; 1: after the first returned (connection closed);
 		// 2: Listen, Close, Listen, Listen again
@@ -202,8 +266,19 @@ func wcChild(a []string) string {
 	maxw, maxr := f.maxInWrite, f.maxInRead
 	f.mu.Unlock()
 	sort.Strings(results)
-	return fmt.Sprintf("res=%s frames=%d closes=%d closed=%v reverted=%v listen=%s extra=%s maxw=%d maxr=%d maxms=%d",
-		strings.Join(results, ","), nclose, closes, conn.Closed(), reverted, lr, extraListen, maxw, maxr, maxms)
+	// reader goroutines of the library still alive after everything returned
+	leak := 0
+	for try := 0; try < 20; try++ {
+		buf := make([]byte, 1<<20)
+		buf = buf[:runtime.Stack(buf, true)]
+		leak = strings.Count(string(buf), ").runReadLoop(")
+		if leak == 0 {
+			break
+		}
+		time.Sleep(5 * time.Millisecond)
+	}
+	return fmt.Sprintf("res=%s frames=%d closes=%d closed=%v reverted=%v listen=%s extra=%s maxw=%d maxr=%d maxms=%d leak=%d",
+		strings.Join(results, ","), nclose, closes, conn.Closed(), reverted, lr, extraListen, maxw, maxr, maxms, leak)
 }
 
 func init() {
@@ -245,7 +320,11 @@ func init() {
 	suites["wsconn"] = func(o *Out, r *Rng, n int, tier string) {
 		peers := []string{"echo", "silent", "first1000", "first1001", "sever", "writefail"}
 		for i := 0; i < n; i++ {
-			switch r.Intn(5) {
+			switch r.Intn(7) {
+			case 5:
+				o.emit("C16", "WC", "listeners", itoa(int64(2+r.Intn(7))), "f", peers[r.Intn(2)], itoa(int64(i)))
+			case 6:
+				o.emit("C15", "WC", "handler", itoa(int64(r.Intn(5))), "t", peers[r.Intn(2)], itoa(int64(i)))
 			case 0:
 				o.emit("C15", "WC", "relisten", itoa(int64(r.Intn(3))), renderBool(r.Bool()), peers[r.Intn(2)], itoa(int64(i)))
 			case 1:
